@@ -20,6 +20,7 @@ func registerIntrinsics(e *Engine) {
 	registerMisc(e)
 	registerRepoStubs(e)
 	registerHTTP(e)
+	registerFS(e)
 	allowExecNames["(*errors.errorString).Error"] = true
 	allowExecNames["(*fmt.wrapError).Error"] = true
 	allowExecNames["(*fmt.wrapError).Unwrap"] = true
@@ -333,6 +334,28 @@ func registerHarness(e *Engine) {
 		}
 		return succ
 	}
+	// vfWaitTurn(kind, a, b): blocks until the environment fires this thread's event;
+	// the firing order is recorded (Src "o") so that native replay can reproduce it.
+	e.Intr["harness.vfWaitTurn"] = func(c *Call) []*State {
+		if c.Th.EventFired {
+			c.Th.EventFired = false
+			a, b := c.argTerm(1), c.argTerm(2)
+			if !a.Const || !b.Const {
+				panic(unsupported("vfWaitTurn with symbolic arguments"))
+			}
+			c.St.Nondets = append(c.St.Nondets, NondetRec{Src: "o", Tag: fmt.Sprintf("turn:%s:%d:%d", c.constStr(0), a.Signed(), b.Signed()), Kind: "choice"})
+			return c.Return(nil)
+		}
+		c.Th.EventFired = true
+		c.Retry()
+		c.E.block(c.St, c.Th, &BlockCond{Kind: "event", Aux: c.constStr(0)})
+		succ, cont := c.E.schedule(c.St, c.sol2())
+		if cont {
+			return nil
+		}
+		return succ
+	}
+	e.Intr["harness.vfNative"] = func(c *Call) []*State { return c.Return(False) }
 	e.Intr["harness.vfSetUnwind"] = func(c *Call) []*State { return c.Return(nil) }
 	e.Intr["harness.vfGhostSet"] = func(c *Call) []*State {
 		c.St.Ghost["g:"+c.constStr(0)] = c.Args[1]
